@@ -65,6 +65,10 @@ pub enum Ev {
     /// GREASE frame on the other critical stream (control <-> session/request)
     GreaseOther,
     QpackEncoderStream,
+    /// (server role, message = control stream) the complete CONNECT request arrives between the pieces of SETTINGS
+    RequestNow,
+    /// (server role, message = CONNECT request) the complete control stream arrives between the pieces of the request
+    ControlNow,
 }
 
 pub const ALL_EV: [Ev; 7] = [Ev::Nothing, Ev::OwnDatagram, Ev::ForeignDatagram, Ev::WtUni, Ev::WtBi, Ev::GreaseOther, Ev::QpackEncoderStream];
@@ -79,10 +83,12 @@ impl Ev {
             Ev::WtBi => "wt_bi",
             Ev::GreaseOther => "grease_other",
             Ev::QpackEncoderStream => "qpack_encoder",
+            Ev::RequestNow => "request_now",
+            Ev::ControlNow => "control_now",
         }
     }
     fn parse(s: &str) -> Ev {
-        ALL_EV.into_iter().find(|m| m.name() == s).unwrap()
+        ALL_EV.into_iter().chain([Ev::RequestNow, Ev::ControlNow]).find(|m| m.name() == s).unwrap()
     }
 }
 
@@ -192,6 +198,16 @@ async fn do_event(raw: &Raw, ev: Ev, sid: u64, other: Option<&mut quinn::SendStr
             let s = raw.open_uni_with(&rc::uni_header_encode(rc::reg::STREAM_QPACK_ENCODER, None)).await?;
             raw.hold(s);
         }
+        Ev::RequestNow => {
+            if let Some(o) = other {
+                o.write_all(&rc::headers_frame(&rc::connect_request_fields("localhost", "/c05"))).await.map_err(|e| format!("{e:?}"))?;
+            }
+        }
+        Ev::ControlNow => {
+            if let Some(o) = other {
+                o.write_all(&rc::control_stream_bytes(&rc::default_peer_settings())).await.map_err(|e| format!("{e:?}"))?;
+            }
+        }
     }
     Ok(())
 }
@@ -250,11 +266,15 @@ pub async fn run(sc: Sc) -> Result<String, String> {
             match sc.msg {
                 Msg::Control | Msg::ControlRich => {
                     // the request stream does not exist yet at the peer (nothing written on it)
-                    write_segmented(&raw, &sc, &mut ctrl, &bytes, sid, None).await?;
-                    req_send.write_all(&rc::headers_frame(&rc::connect_request_fields("localhost", "/c05"))).await.map_err(|e| format!("{e:?}"))?;
+                    write_segmented(&raw, &sc, &mut ctrl, &bytes, sid, Some(&mut req_send)).await?;
+                    if sc.ev != Ev::RequestNow {
+                        req_send.write_all(&rc::headers_frame(&rc::connect_request_fields("localhost", "/c05"))).await.map_err(|e| format!("{e:?}"))?;
+                    }
                 }
                 Msg::Request => {
-                    ctrl.write_all(&whole_control).await.map_err(|e| format!("{e:?}"))?;
+                    if sc.ev != Ev::ControlNow {
+                        ctrl.write_all(&whole_control).await.map_err(|e| format!("{e:?}"))?;
+                    }
                     write_segmented(&raw, &sc, &mut req_send, &bytes, sid, Some(&mut ctrl)).await?;
                 }
                 _ => {
@@ -515,11 +535,18 @@ pub fn scenarios(tier: Tier) -> Vec<Sc> {
         let n = bytes.len();
         for role in roles {
             // events that make sense for this message
-            let evs: Vec<Ev> = match msg {
+            let mut evs: Vec<Ev> = match msg {
                 Msg::Control | Msg::ControlRich => vec![Ev::Nothing, Ev::OwnDatagram, Ev::ForeignDatagram, Ev::WtUni, Ev::QpackEncoderStream],
                 Msg::Request | Msg::Response => vec![Ev::Nothing, Ev::OwnDatagram, Ev::ForeignDatagram, Ev::WtUni, Ev::GreaseOther, Ev::QpackEncoderStream],
                 _ => ALL_EV.to_vec(),
             };
+            // the two halves of the set-up in either order: the request completes while SETTINGS is half received, and vice versa
+            if role && matches!(msg, Msg::Control | Msg::ControlRich) {
+                evs.push(Ev::RequestNow);
+            }
+            if role && msg == Msg::Request {
+                evs.push(Ev::ControlNow);
+            }
             // bidi streams can only be opened by the raw peer towards a client if it is the server; both fine
             let mut cutsets: Vec<Vec<usize>> = vec![];
             for c in 1..n {
